@@ -8,5 +8,5 @@ c=r['cfg']; print({k:c[k] for k in ('mem_queue_size','msg_timeout_ms','max_msg_t
 for o in r['ops'] or []: print(' ',o)
 print(r['violation'])
 "
-export GODEBUG=asynctimerchan=0
+export GODEBUG=asynctimerchan=0 GOMAXPROCS=1
 /var/tmp/vb1/bin/world.test -test.run TestSim -replay $f -dumplog 2>&1 | grep -v "GET /stats\|persisting\|DISKQ\|\[nsqd\]" | cut -c1-${W:-230} | sed -n '/op 0 /,$p' | grep -E "${2:-.}" | head -${N:-70}
